@@ -62,6 +62,7 @@ type childReport struct {
 	HookOrderings  int      `json:"hook_orderings"`
 	Stalled        string   `json:"stalled,omitempty"`
 	CleanupOverlap int64    `json:"cleanup_overlap"`
+	SlowInflight   int64    `json:"cleanups_during_first_download"`
 	Finished       bool     `json:"finished"`
 }
 
@@ -199,6 +200,8 @@ func childMain(dir string) {
 	})
 	if wl.Kind == "ocsp" {
 		ocspWorkload(wl, dir)
+	} else if wl.Kind == "crl-slow-first-load" {
+		slowFirstLoadWorkload(wl, dir)
 	} else {
 		crlWorkload(wl, dir)
 	}
@@ -323,6 +326,75 @@ func crlWorkload(wl workload, dir string) {
 	rep.Handshakes = handshakes.Load()
 	rep.Steps = steps.Load()
 	rep.CleanupOverlap = overlap.Load()
+}
+
+// slowFirstLoadWorkload: cycles of {fresh checker; handshakes naming never-seen CDPs whose origin
+// answers slowly; Cleanup while first downloads are in flight}. Every call has to return.
+func slowFirstLoadWorkload(wl workload, dir string) {
+	rng := rand.New(rand.NewSource(wl.Seed))
+	w := world.New(fmt.Sprintf("C13-%d", wl.ID))
+	defer w.Close()
+	doc := gen.SpecFor(w.Int, gen.Entries(rng, gen.Opts{N: 30, SerialWidth: 10})).Build(w.Int.Key).DER
+	var downloading, served atomic.Int64
+	w.CRL.SetDefault(origin.Func(func(req []byte) (int, []byte) {
+		downloading.Add(1)
+		defer downloading.Add(-1)
+		n := served.Add(1)
+		time.Sleep(time.Duration(90+(n*37)%120) * time.Millisecond)
+		return 200, doc
+	}))
+	cycles := wl.DurationMs / 220
+	var handshakes, overlap, during atomic.Int64
+	for cy := 0; cy < cycles; cy++ {
+		wd := filepath.Join(dir, fmt.Sprintf("wd%d", cy))
+		_ = os.MkdirAll(wd, 0755)
+		chk, err := l2.Start(l2.Opts{WorkDir: wd, Storage: wl.Backend, SigMode: "verify", Fetch: wl.Fetch, Interval: time.Hour})
+		if err != nil {
+			verdictError("provision failed: " + err.Error())
+			return
+		}
+		var stop, cleanupStarted atomic.Bool
+		var wg sync.WaitGroup
+		for g := 0; g < wl.Goroutines; g++ {
+			wg.Add(1)
+			go func(g int) {
+				defer wg.Done()
+				for k := 0; !stop.Load(); k++ {
+					// background mode: every handshake with a new CDP queues a serialized forced pass over
+					// all entries (quadratic in the number of new CDPs), so three per cycle
+					if wl.Fetch == "background" && (k >= 1 || g >= 3) {
+						time.Sleep(time.Millisecond)
+						continue
+					}
+					url := w.CRL.URL(fmt.Sprintf("/slow/c%d/g%d/k%d.crl", cy, g, k))
+					chain := w.Leaf(pki.NextSerial(), []string{url}, nil)
+					began := !cleanupStarted.Load()
+					guard("handshake", func() { _, _ = chk.C.IsRevoked(chain[0], [][]*x509.Certificate{chain}) })
+					handshakes.Add(1)
+					if began && cleanupStarted.Load() {
+						overlap.Add(1)
+					}
+				}
+			}(g)
+		}
+		deadline := time.Now().Add(3 * time.Second)
+		for downloading.Load() == 0 && time.Now().Before(deadline) {
+			time.Sleep(200 * time.Microsecond)
+		}
+		time.Sleep(time.Duration(rng.Intn(60)) * time.Millisecond)
+		if downloading.Load() > 0 {
+			during.Add(1)
+		}
+		cleanupStarted.Store(true)
+		var cleaned atomic.Bool
+		cleanupCall(chk, &cleaned)
+		stop.Store(true)
+		wg.Wait()
+		_ = os.RemoveAll(wd)
+	}
+	rep.Handshakes = handshakes.Load()
+	rep.CleanupOverlap = overlap.Load()
+	rep.SlowInflight = during.Load()
 }
 
 // handshakeLoop: role "handshake" (appears in race report stacks).
@@ -629,7 +701,7 @@ func main() {
 		return
 	}
 	run := report.New("C13", "exploration")
-	run.Rule("workload instances in child processes under the race detector with seeded yields at hook points: handshake storms (G in {4,16} goroutines, shared / distinct / mixed-with-configured CDP sets, both backends, both fetch modes, GOMAXPROCS in {2,16}) against a stepper doing update passes (forced and unforced), config-CRL updates, origin version changes and origin faults incl. bad signatures (state 'last refresh failed signature verification'), ending with Cleanup concurrent with the last handshakes; the real 50 ms ticker; OCSP lookups from 16 goroutines over 8 certificates with 30 ms / 5 ms cache lifetimes on two checker instances while statuses flip. Monitors: race reports with a repository frame (keyed by the pair of harness roles), every API call returns (20 s stall => goroutine dump => deadlock criterion), panics, verdicts inside the sound superset. non-trivial = instance that completed >= 200 calls with >= 2 distinct hook-order windows; distinct = workload descriptor")
+	run.Rule("workload instances in child processes under the race detector with seeded yields at hook points: handshake storms (G in {4,16} goroutines, shared / distinct / mixed-with-configured CDP sets, both backends, both fetch modes, GOMAXPROCS in {2,16}) against a stepper doing update passes (forced and unforced), config-CRL updates, origin version changes and origin faults incl. bad signatures (state 'last refresh failed signature verification'), ending with Cleanup concurrent with the last handshakes; the real 50 ms ticker; cycles of Cleanup beginning while first downloads from a slow origin (90-210 ms) are in flight, for handshakes naming never-seen CDPs; OCSP lookups from 16 goroutines over 8 certificates with 30 ms / 5 ms cache lifetimes on two checker instances while statuses flip. Monitors: race reports with a repository frame (keyed by the pair of harness roles), every API call returns (20 s stall => goroutine dump => deadlock criterion), panics, verdicts inside the sound superset. non-trivial = instance that completed >= 200 calls with >= 2 distinct hook-order windows; distinct = workload descriptor")
 	run.Assume("race detector reports only races the schedule produced", "deadlock criterion: every goroutine with a repository frame parked in Mutex/RWMutex/WaitGroup and none in IO wait / sleep / select / runnable")
 	scratch, _ := report.Scratch("C13")
 	rng := rand.New(rand.NewSource(run.Seed))
@@ -646,6 +718,11 @@ func main() {
 				add(workload{Kind: "crl-storm", Backend: b, Fetch: f, Goroutines: []int{4, 16}[len(wls)%2], Sets: s, Procs: []int{16, 2}[len(wls)%2], DurationMs: dur})
 			}
 			add(workload{Kind: "crl-ticker", Backend: b, Fetch: f, Goroutines: 8, Sets: "distinct", Procs: 16, DurationMs: dur})
+		}
+	}
+	for _, b := range []string{"memory", "disk"} {
+		for _, f := range []string{"actively", "background"} {
+			add(workload{Kind: "crl-slow-first-load", Backend: b, Fetch: f, Goroutines: []int{3, 8}[len(wls)%2], Sets: "fresh-per-handshake", Procs: []int{16, 2}[len(wls)%2], DurationMs: dur})
 		}
 	}
 	add(workload{Kind: "ocsp", Goroutines: 16, Procs: 16, DurationMs: dur})
@@ -748,6 +825,7 @@ func main() {
 		run.Count("stepper_steps", r.rep.Steps)
 		run.Count("handshakes_overlapping_cleanup", r.rep.CleanupOverlap)
 		run.Count("race_reports", int64(len(r.races)))
+		run.Count("cleanups_during_a_first_download", r.rep.SlowInflight)
 		run.Count("distinct_hook_order_windows", int64(r.rep.HookOrderings))
 		rp := func(extra map[string]any, files map[string][]byte) *report.Replay {
 			m := map[string]any{"workload": r.wl, "report": r.rep, "exit": r.exit}
@@ -817,7 +895,13 @@ func main() {
 			}
 			run.Violation("process-crash."+kind+"."+r.wl.Kind, desc+": child process died: "+trunc(r.logTail, 2000), rp(nil, nil))
 		default:
-			if r.rep.Calls >= 200 && (r.rep.HookOrderings >= 2 || r.wl.Kind == "ocsp") && len(r.races) == 0 {
+			if r.wl.Kind == "crl-slow-first-load" {
+				if r.rep.SlowInflight >= 3 && len(r.races) == 0 {
+					run.NonTrivial(desc)
+				} else if r.rep.SlowInflight < 3 {
+					run.Inconclusive(fmt.Sprintf("%s: only %d Cleanup calls began during a first download", desc, r.rep.SlowInflight))
+				}
+			} else if r.rep.Calls >= 200 && (r.rep.HookOrderings >= 2 || r.wl.Kind == "ocsp") && len(r.races) == 0 {
 				run.NonTrivial(desc)
 			}
 		}
